@@ -253,10 +253,125 @@ func CBufUint64(name string, n int) unsafe.Pointer {
 	return cbuf(name, n, 8, func(i int, p unsafe.Pointer) { *(*uint64)(p) = Uint64(fmt.Sprintf("%s[%d]", name, i)) })
 }
 
-// UF1..3: uninterpreted function (natively: a fixed arbitrary injective-ish mixing function)
-func UF1(name string, a float64) float64       { return mix(name, a) }
-func UF2(name string, a, b float64) float64    { return mix(name, a, b) }
-func UF3(name string, a, b, c float64) float64 { return mix(name, a, b, c) }
+// UF1..3: uninterpreted functions.  In a replay the function is the piecewise-linear
+// interpolant (nearest recorded point for several arguments) of the call table that the solver's
+// model assigned; without a replay file it is a fixed arbitrary mixing function.
+func UF1(name string, a float64) float64       { return ufLookup(name, a) }
+func UFMono1(name string, a float64) float64   { return ufLookup(name, a) }
+func UF2(name string, a, b float64) float64    { return ufLookup(name, a, b) }
+func UF3(name string, a, b, c float64) float64 { return ufLookup(name, a, b, c) }
+
+type ufPoint struct {
+	args []float64
+	res  float64
+}
+
+var ufTables map[string][]ufPoint
+
+func parseF(v string) float64 {
+	switch v {
+	case "NaN":
+		return math.NaN()
+	case "+Inf":
+		return math.Inf(1)
+	case "-Inf":
+		return math.Inf(-1)
+	}
+	f, _ := strconv.ParseFloat(v, 64)
+	return f
+}
+
+func ufLoad() {
+	if ufTables != nil {
+		return
+	}
+	load()
+	ufTables = map[string][]ufPoint{}
+	tmp := map[string]map[int]*ufPoint{}
+	for k, v := range rf.Symbols {
+		if !strings.HasPrefix(k, "uf:") {
+			continue
+		}
+		parts := strings.Split(k, ":")
+		if len(parts) != 4 {
+			continue
+		}
+		name := parts[1]
+		idx, _ := strconv.Atoi(parts[2])
+		if tmp[name] == nil {
+			tmp[name] = map[int]*ufPoint{}
+		}
+		pt := tmp[name][idx]
+		if pt == nil {
+			pt = &ufPoint{}
+			tmp[name][idx] = pt
+		}
+		if parts[3] == "res" {
+			pt.res = parseF(v)
+		} else {
+			ai, _ := strconv.Atoi(strings.TrimPrefix(parts[3], "arg"))
+			for len(pt.args) <= ai {
+				pt.args = append(pt.args, 0)
+			}
+			pt.args[ai] = parseF(v)
+		}
+	}
+	for name, m := range tmp {
+		for _, pt := range m {
+			ufTables[name] = append(ufTables[name], *pt)
+		}
+	}
+}
+
+func ufLookup(name string, xs ...float64) float64 {
+	ufLoad()
+	tab := ufTables[name]
+	if len(tab) == 0 {
+		return mix(name, xs...)
+	}
+	if len(xs) == 1 {
+		x := xs[0]
+		// piecewise-linear interpolation through the recorded points
+		var lo, hi *ufPoint
+		for i := range tab {
+			p := &tab[i]
+			if len(p.args) != 1 {
+				continue
+			}
+			if p.args[0] == x {
+				return p.res
+			}
+			if p.args[0] < x && (lo == nil || p.args[0] > lo.args[0]) {
+				lo = p
+			}
+			if p.args[0] > x && (hi == nil || p.args[0] < hi.args[0]) {
+				hi = p
+			}
+		}
+		switch {
+		case lo != nil && hi != nil:
+			return lo.res + (hi.res-lo.res)*(x-lo.args[0])/(hi.args[0]-lo.args[0])
+		case lo != nil:
+			return lo.res
+		case hi != nil:
+			return hi.res
+		}
+		return 0
+	}
+	best, bd := 0.0, math.Inf(1)
+	for _, p := range tab {
+		d := 0.0
+		for i := range xs {
+			if i < len(p.args) {
+				d += math.Abs(xs[i] - p.args[i])
+			}
+		}
+		if d < bd {
+			bd, best = d, p.res
+		}
+	}
+	return best
+}
 
 func mix(name string, xs ...float64) float64 {
 	h := 1.0
